@@ -42,6 +42,7 @@ class Scheduler:
         self.failed = None
         self.silent = set(silent)  # (thread, action) pairs of the spec that the implementation cannot announce
         self.names = {}
+        self.leak = None   # name of a thread whose operation returned while it still owned the tree lock
 
     def name(self):
         return self.names.get(threading.get_ident(), "?")
@@ -145,8 +146,16 @@ class TracingLock:
                 if self.owner == me:
                     self.sched.rec.log(self.sched.name(), "not_reentrant")
                     raise _Abort()
-                if not self.inner.acquire(True, SAFETY_TIMEOUT):
-                    raise MachineryTimeout("free-running acquire")
+                waited = 0.0
+                while not self.inner.acquire(True, 0.05):
+                    waited += 0.05
+                    if self.sched.leak:
+                        # the lock will never be free: its owner's operation has returned without releasing it (the
+                        # trace already shows that, see "end"); this thread gives up instead of timing out
+                        self.sched.rec.log(self.sched.name(), "deviation", got="lock_never_released_by_" + self.sched.leak, exp="acq")
+                        raise _Abort()
+                    if waited >= SAFETY_TIMEOUT:
+                        raise MachineryTimeout("free-running acquire")
             self.sched.step("acq")  # logged while the lock is held
         self.owner = me
         self.depth += 1
@@ -241,8 +250,8 @@ class _install_factory:
 # ------------------------------------------------------------------------------------------------
 BASE = ["x", "y"]  # the tree's committed initial content
 OPS = ["save_stream", "save_path", "copy", "copy_pred", "filtered", "copy_to", "to_dict_list", "to_dotfile", "with",
-       "copy_to_refused", "save_mapper_raises", "to_dotfile_path"]
-SILENT_READ_OPS = {"copy", "copy_to", "copy_to_refused"}  # operations without a user callback: reads cannot be announced
+       "copy_to_refused", "save_mapper_raises", "to_dotfile_path", "copy_to_same"]
+SILENT_READ_OPS = {"copy", "copy_to", "copy_to_refused", "copy_to_same"}  # operations without a user callback: reads cannot be announced
 
 
 class ExpectedFailure(Exception):
@@ -259,13 +268,23 @@ def _dot_names(text):
     return [n for n in names if n != "locked"]   # (the root node carries the tree's name)
 
 
-def _entry_name(payload):
+def _entry_name(payload, nodes=None):
     if isinstance(payload, str):
         return payload
+    if isinstance(payload, int) and nodes is not None:      # a clone reference: the entry at that position
+        return _entry_name(nodes[payload - 1][1], nodes)
     return payload.get("str", payload.get("s", "?"))
 
 
+def _entry_names(nodes):
+    return [_entry_name(e[1], nodes) for e in nodes]
+
+
 _variant = threading.local()
+
+
+class _same_target:      # (one run at a time per process)
+    node = None
 
 
 def markers(names):
@@ -308,13 +327,13 @@ def run_reader_op(tree, op, sched: Scheduler, tmpdir):
     if op == "save_stream":
         fp = io.StringIO()
         tree.save(fp, mapper=mapper, key_map=False)
-        names = [_entry_name(e[1]) for e in json.loads(fp.getvalue())["nodes"]]
+        names = _entry_names(json.loads(fp.getvalue())["nodes"])
         return markers(names), calls["n"]
     if op == "save_path":
         path = f"{tmpdir}/lock_{threading.get_ident()}.json"
         tree.save(path, mapper=mapper)
         with open(path) as f:
-            names = [_entry_name(e[1]) for e in json.load(f)["nodes"]]
+            names = _entry_names(json.load(f)["nodes"])
         return markers(names), calls["n"]
     if op == "copy":
         t2 = tree.copy()
@@ -329,6 +348,16 @@ def run_reader_op(tree, op, sched: Scheduler, tmpdir):
         t2 = type(tree)("target")
         tree.copy_to(t2)
         return markers([n.name for n in t2]), 0
+    if op == "copy_to_same":
+        # the target is a node of the SAME tree (the first committed top-level node, looked up before the threads
+        # started): the copies of the top-level nodes below it are the snapshot
+        from nutree.common import UniqueConstraintError
+        tgt = _same_target.node
+        try:
+            tree.copy_to(tgt, deep=False)
+        except UniqueConstraintError:      # another reader of this run did the same before
+            raise ExpectedFailure() from None
+        return markers([n.name for n in tgt.children]), 0
     if op == "copy_to_refused":
         # the target already holds one of the top-level nodes: refused with the uniqueness error inside the lock
         from nutree.common import UniqueConstraintError
@@ -381,10 +410,12 @@ def build_tree(typed=False):
         tree = TypedTree("locked")
         for n in BASE:
             tree.add(n, kind="base", data_id="id_" + n)
+        tree.children[0].add("xc", kind="base", data_id="id_xc")
         return tree
     tree = Tree("locked")
     for n in BASE:
         tree.add(n, data_id="id_" + n)  # explicit ids: save() stores dict entries, so its mapper sees every node
+    tree.children[0].add("xc", data_id="id_xc")     # (target of copy_to_same)
     return tree
 
 
@@ -409,6 +440,7 @@ def _run_trace(sched, rec, rops, op, *, schedule, nested, nested_op, writers, re
     tree = build_tree(typed)
     if tree._lock is not None and not isinstance(tree._lock, TracingLock):
         tree._lock = TracingLock(tree._lock, sched)    # a lock object the factory did not see being made
+    _same_target.node = tree.children[0].children[0]
     errors = []
     version = {"v": 0}
 
@@ -469,6 +501,9 @@ def _run_trace(sched, rec, rops, op, *, schedule, nested, nested_op, writers, re
                 rec.log(name, "snap", shows)
             except ExpectedFailure:
                 pass  # no snapshot; the protocol (acquire ... release) must have been completed nevertheless
+            lk = tree._lock
+            if isinstance(lk, TracingLock) and lk.owner == threading.get_ident() and lk.depth > 0:
+                sched.leak = name     # the operation returned, the lock is still held (reported at "end")
             sched.step("end")
         except _Abort:
             pass
@@ -504,7 +539,7 @@ def _owner_snapshot(tree, op, tmpdir):
     if op == "save_stream":
         fp = io.StringIO()
         tree.save(fp, key_map=False)
-        return markers([_entry_name(e[1]) for e in json.loads(fp.getvalue())["nodes"]]), 0
+        return markers(_entry_names(json.loads(fp.getvalue())["nodes"])), 0
     if op == "copy_to":
         t2 = type(tree)("t")
         tree.copy_to(t2)
